@@ -153,7 +153,7 @@ def coverage(lines):
 def exercise(ctx, hb, drv, quick, profile):
     """correspondence (faithful model + spec model) and falsifier for the harness binary `hb`"""
     maxlog = 11 if quick else 14
-    jobs = 8 if quick else 12
+    jobs = 10 if quick else 12
     if hb and drv:
         rc, out, dt = vcheck.sh([hb, "corr", str(ctx.seed), str(maxlog), ctx.tier], timeout=900)
         lines = [l for l in out.split("\n") if " => " in l]
@@ -197,7 +197,7 @@ def exercise(ctx, hb, drv, quick, profile):
                 v = classes[k]
                 v.sort(key=lambda x: x[0])
                 picks = [v.pop(0)] if v[0][0] <= budget // 20 else []
-                heavy_cap = (150_000 if k[0].startswith("spec:") else 400_000) if (quick and k[1] == "f128") else budget // 20
+                heavy_cap = 60_000 if (quick and k[1] == "f128") else budget // 20
                 if v and v[-1][0] <= heavy_cap:
                     picks.append(v.pop())
                 for w, l in picks:
@@ -226,7 +226,7 @@ def exercise(ctx, hb, drv, quick, profile):
             if op in SPEC_OPS and r.strip() != "panic" and tw in (None, "std") and n >= 2 and n & (n - 1) == 0 \
                     and total <= (1 << (13 if quick else 15)):
                 cand_s.append("spec:" + l)
-        budget = 5_000_000 if quick else 60_000_000
+        budget = 4_000_000 if quick else 60_000_000
         cheap = 1000 if quick else 30000
         faithful, used_f = select(cand_f, budget, cheap)
         spec, used_s = select(cand_s, budget // 2, cheap)
@@ -301,7 +301,7 @@ def run(ctx):
         "c": "theorem (every k): faithful index-level fft_in_place (both strategies, any count/stride/offset) = bit-reversed list FFT; "
              "permute = bit reversal; evaluate_poly/evaluate_poly_with_offset/interpolate_poly(_with_offset)/infer_degree of the faithful model",
         "no_panic": "theorem (every k): no slice access of fft_in_place/permute out of range under the entry-point asserts; checked entry points = "
-                    "entry points on all inputs; exact panic domains (_total_iff); the driver also runs the checked model on every case of work size <= 512",
+                    "entry points on all inputs; exact panic domains (_total_iff); the driver also runs the checked model on every case of work size <= 256",
         "generated": "permute_index is translated by rs2v from the source on every run; theorem: model = generated term for every size <= 2^63; "
                      "the driver evaluates the generated term on every permute_index case",
     }
